@@ -264,9 +264,10 @@ def check_c11(tier, seed, only=None):
         if max(ranks) < 2:
             ranks[0] = rng.choice([2, 3, 4])
         if i % 3 == 2:
-            # every second invalid file violates exactly one precondition (each kind in turn), the others a random combination
+            # four of five invalid files violate exactly one precondition (loop, parallel, non-positive, parallel again - the predicate for
+            # parallel edges is the one whose answer depends on where in the file the copy stands), the fifth a random combination
             j = i // 3
-            n2, toks, kinds = dimacs_gen.make_invalid(rng, n, edges, only=(j // 2) % 3 if j % 2 == 0 else None)
+            n2, toks, kinds = dimacs_gen.make_invalid(rng, n, edges, only=[0, 1, 2, 1, None][j % 5])
             # the generator is validated against the definitions before its file is used as an oracle
             pairs = [(min(a_, b_), max(a_, b_)) for a_, b_, c_ in toks]
             if not (any(a_ == b_ for a_, b_ in pairs) or len(set(pairs)) < len(pairs) or any(float(c_) <= 0 for a_, b_, c_ in toks)):
